@@ -527,7 +527,9 @@ def _c20(ctx, params):
     W, prob, gtol = _setup(ctx, params)
     info = dict(params)
     kind = params["kind"]
-    base = _cfg(params, gtol, callback_kind="false")
+    fd = params.get("jac")            # None: callable gradient; else a finite-difference mode (faults inside a difference sweep)
+    jkw = {} if fd is None else dict(jac=None if fd == "none" else fd)
+    base = _cfg(params, gtol, callback_kind="false", **jkw)
     ftv = SReal(ctx.real("ftarget"))
     if kind in ("ftarget",) or params.get("with_ftarget"):
         pass
